@@ -29,7 +29,7 @@ META = {
 }
 
 TEXTS = []
-N_SHORT = 4      # the short documents; TEXTS[4] is the long score (frame lemma and two-imports obligations only)
+N_SHORT = 5      # the short documents; TEXTS[5] is the long score (frame lemma and two-imports obligations only)
 
 
 def load(tier):
@@ -38,6 +38,9 @@ def load(tier):
     from sv.ref import longdoc
     TEXTS = [P[0].text(), P[2].text(), P[4].text(),
              '**kern\t**kern\n4c\t4e\n*clefG2\t*\n=1\t=1\n4d#\t4f\n*M4/4\t*\n=2\t=2\n2g\t2b\n*-\t*-\n',     # notes before the first clef, unequal signatures
+             # both spines carry signatures, but not the same number: every export that starts after measure 1 raises ('Node signature
+             # mismatch') half-way through -- and must raise in the same way every time it is asked
+             '**kern\t**kern\n*clefG2\t*clefF4\n*M4/4\t*\n=1\t=1\n4c\t4C\n=2\t=2\n4d\t4D\n=3\t=3\n4e\t4E\n*-\t*-\n',
              longdoc.long_doc(ctx.pick(260, 1200), True, 100).text()]      # a long score (C14.a / C14.c only in the quick tier)
 
 
